@@ -237,6 +237,7 @@ def check_case(case):
     zg = make_signal(N, dtype, ss, g.astype(dtype))
     zg_k = make_signal(N, dtype, ss, g.astype(dtype), rate="1kHz")
     zg_m = make_signal(N, dtype, ss, g.astype(dtype), rate="1MHz")
+    zg_g = make_signal(N, dtype, ss, g.astype(dtype), rate="1GHz")
     Xg = np.asarray(zg.data)
 
     if N >= 4:
@@ -261,11 +262,12 @@ def check_case(case):
                 res.hits["shift array with fewer axes than the sample shape"] += 1
         # time-Quantity form of a few fillings, in several (rate unit, shift unit) pairs: the unit need not be the reciprocal
         # of the unit the sample rate is written in.  8 Hz / 1 kHz / 1 MHz with s, ms, us.
-        for zq, Xq, rate_hz in ((zg, Xg, 8.0), (zg_k, Xg, 1e3), (zg_m, Xg, 1e6)):
+        for zq, Xq, rate_hz in ((zg, Xg, 8.0), (zg_k, Xg, 1e3), (zg_m, Xg, 1e6), (zg_g, Xg, 1e9)):
             for name, val in list(fillings(N, shp))[4:9] + list(fillings(N, shp))[-2:]:
                 if shp is not None and len(shp) > len(ss):
                     continue
-                for unit in (u.s, u.ms, u.us):
+                # (at 1 GHz a shift of a few samples is a NUMBER of order 1e-9 in seconds and 1e-12 in kiloseconds)
+                for unit in ((u.s, u.ms, u.us) if rate_hz < 1e9 else (u.s, u.ks, u.ns)):
                     q = (np.asarray(val, dtype=float) / rate_hz * u.s).to(unit)
                     sub = {"shift_shape": None if shp is None else list(shp), "fill": name, "form": f"Quantity[{unit}]", "rate_Hz": rate_hz}
                     # exact shift in samples from the Quantity actually passed; near-integer-but-not-integer values are open
@@ -291,7 +293,7 @@ def check_case(case):
                     res.state((N, str(dtype), ss, shp, name, "quantity", str(unit), rate_hz))
                     _generic_call(res, case, zq, Xq, q, sv, ss, sub)
                     res.hits["time Quantity shift"] += 1
-                    if str(unit) != {8.0: "s", 1e3: "ms", 1e6: "us"}[rate_hz]:
+                    if str(unit) != {8.0: "s", 1e3: "ms", 1e6: "us", 1e9: "ns"}[rate_hz]:
                         res.hits["Quantity unit not reciprocal to the rate unit"] += 1
     # the same shift in unusual but valid argument forms must give the same result as the plain float / ndarray form
     if N >= 2:
